@@ -165,10 +165,14 @@ def ro_operations(w, S, uni):
 
 def run_ro(w, S, spec):
     uni = Universe(vertices=[w.o(v) for v in range(1, S["bv"] + 1)])
-    extra = [uni]
+    part = Universe(vertices=[w.o(v) for v in range(1, S["bv"])])      # all but the last vertex: links may leave it
+    extra = [uni, part]
     out = []
     sel = spec.get("select")
-    for name, cbs, runner in ro_operations(w, S, uni):
+    ops = ro_operations(w, S, uni)
+    ops += [(n + "[part]", c, r) for n, c, r in ro_operations(w, S, part)
+            if n.split("(")[0] in ("basic_render", "render_to_plantuml_src", "make_pyvis_net", "pyvis_render_customizable", "nrpickler.dumps")]
+    for name, cbs, runner in ops:
         def fresh_wrappers():
             return {c: (Faulty(fn, 0) if fn is not None else None) for c, fn in cbs.items()}
 
